@@ -20,6 +20,9 @@ the per-query correspondence):
   before; `query_cov` / `query_WU`: the same for arbitrary linear node functionals whose single-node covariance telescopes, in
   particular the complete second moments of what a query returns: `Var W = h`, `Cov(W, U) = h²/2`, `Var U = h³/3`, `h = tb - ta`
   (`ψU tb` is the Chen weight `C03Model.φU`, whose sum over the pieces is the returned `U`, `C03Model.answerSpec_U`);
+* `queries_uncorrelated`: two resolved queries `[ta,tb]`, `[tc,td]` with `tb ≤ tc` of one tree have uncorrelated `W` and `U` (any linear
+  functionals of their pieces) - independent increments at the level of what the object returns; with C03 (additivity for every
+  history) this fixes the covariance of ANY two increments at resolved times to the length of the overlap;
 * `C04ModelEx`: every hypothesis is met over ℝ (real square root, coefficient vectors with the dot product, one-hot noise).
 
 That Gaussian vectors are determined by these second moments is classical and trusted (DESIGN §5).
@@ -712,6 +715,140 @@ theorem query_WU (hsq : ∀ x : K, 0 ≤ x → sqrt x * sqrt x = x) (hn : NoiseO
   · rw [vWW]; ring
   · rw [vWU]; ring
   · rw [vUU]; ring
+
+/-! ### independent increments at the level of queries -/
+
+theorem get_bounds : ∀ {t : Model.BM.Tree K} {p : Path} {nd : Model.BM.Tree K}, WF c t → t.get? p = some nd → t.s ≤ nd.s ∧ nd.e ≤ t.e
+  | t, [], nd, _, hg => by
+      have e2 : nd = t := by cases t <;> simpa [Model.BM.Tree.get?] using hg.symm
+      subst e2; exact ⟨le_refl _, le_refl _⟩
+  | Model.BM.Tree.leaf _ _, _ :: _, _, _, hg => by simp [Model.BM.Tree.get?] at hg
+  | Model.BM.Tree.node s e m l r, b :: p, nd, hw, hg => by
+      obtain ⟨hsm, hme, _, hls, hle, hrs, hre, hwl, hwr⟩ := hw
+      simp only [Model.BM.Tree.s, Model.BM.Tree.e]
+      cases b
+      · simp only [Model.BM.Tree.get?, Bool.false_eq_true, if_false] at hg
+        obtain ⟨h1, h2⟩ := get_bounds hwl hg
+        exact ⟨by rw [← hls]; exact h1, le_trans h2 (by rw [hle]; exact le_of_lt hme)⟩
+      · simp only [Model.BM.Tree.get?, if_true] at hg
+        obtain ⟨h1, h2⟩ := get_bounds hwr hg
+        exact ⟨le_trans (by rw [hrs]; exact le_of_lt hsm) h1, by rw [← hre]; exact h2⟩
+
+theorem chain_le {t : Model.BM.Tree K} : ∀ {ps : List Path} {a b : K}, C03Model.chainP t a b ps → a ≤ b
+  | [], a, b, h => by simp only [C03Model.chainP] at h; exact le_of_eq h
+  | p :: ps, a, b, h => by
+      obtain ⟨nd, _, hs, hlt, hr⟩ := h
+      exact le_trans (by rw [← hs]; exact le_of_lt hlt) (chain_le hr)
+
+/-- every piece of a chain from `a` to `b` is a non-degenerate node inside `[a, b]` -/
+theorem chain_mem {t : Model.BM.Tree K} : ∀ {ps : List Path} {a b : K}, C03Model.chainP t a b ps → ∀ p ∈ ps,
+    ∃ nd, t.get? p = some nd ∧ a ≤ nd.s ∧ nd.e ≤ b ∧ nd.s < nd.e
+  | [], _, _, _, p, hp => by simp at hp
+  | q :: ps, a, b, h, p, hp => by
+      obtain ⟨nd, hg, hs, hlt, hr⟩ := h
+      rcases List.mem_cons.mp hp with rfl | hp'
+      · exact ⟨nd, hg, le_of_eq hs.symm, chain_le hr, hlt⟩
+      · obtain ⟨nd', hg', h1, h2, h3⟩ := chain_mem hr p hp'
+        exact ⟨nd', hg', le_trans (by rw [← hs]; exact le_of_lt hlt) h1, h2, h3⟩
+
+theorem path_trichotomy : ∀ (p1 p2 : Path), p1 <+: p2 ∨ p2 <+: p1 ∨
+    ∃ (a r1 r2 : Path) (b : Bool), p1 = a ++ b :: r1 ∧ p2 = a ++ (!b) :: r2
+  | [], p2 => Or.inl (List.nil_prefix)
+  | _ :: _, [] => Or.inr (Or.inl List.nil_prefix)
+  | b1 :: p1, b2 :: p2 => by
+      by_cases hb : b1 = b2
+      · subst hb
+        rcases path_trichotomy p1 p2 with h | h | ⟨a, r1, r2, b, e1, e2⟩
+        · exact Or.inl (by simpa using h)
+        · exact Or.inr (Or.inl (by simpa using h))
+        · exact Or.inr (Or.inr ⟨b1 :: a, r1, r2, b, by simp [e1], by simp [e2]⟩)
+      · refine Or.inr (Or.inr ⟨[], p1, p2, b1, by simp, ?_⟩)
+        have : b2 = !b1 := by cases b1 <;> cases b2 <;> simp_all
+        simp [this]
+
+/-- nodes whose paths diverge (left, right) are ordered in time -/
+theorem diverge_order {t : Model.BM.Tree K} (hwf : WF c t) {a r1 r2 : Path} {n1 n2 : Model.BM.Tree K}
+    (g1 : t.get? (a ++ false :: r1) = some n1) (g2 : t.get? (a ++ true :: r2) = some n2) : n1.e ≤ n2.s := by
+  cases hga : t.get? a with
+  | none =>
+    exfalso
+    have : ∀ (t : Model.BM.Tree K) (a p : Path), t.get? a = none → t.get? (a ++ p) = none := by
+      intro t a
+      induction a generalizing t with
+      | nil => intro p h; cases t <;> simp [Model.BM.Tree.get?] at h
+      | cons b a ih =>
+        intro p h
+        cases t with
+        | leaf _ _ => simp [Model.BM.Tree.get?]
+        | node s e m l r =>
+          cases b
+          · simp only [Model.BM.Tree.get?, Bool.false_eq_true, if_false, List.cons_append] at h ⊢; exact ih l p h
+          · simp only [Model.BM.Tree.get?, if_true, List.cons_append] at h ⊢; exact ih r p h
+    rw [this t a _ hga] at g1; simp at g1
+  | some na =>
+    rw [get?_append t a _ hga] at g1 g2
+    have hwa := wf_get hwf hga
+    cases na with
+    | leaf _ _ => simp [Model.BM.Tree.get?] at g1
+    | node s e m l r =>
+      obtain ⟨_, _, _, _, hle, hrs, _, hwl, hwr⟩ := hwa
+      simp only [Model.BM.Tree.get?, Bool.false_eq_true, if_false, if_true] at g1 g2
+      have b1 := (get_bounds hwl g1).2
+      have b2 := (get_bounds hwr g2).1
+      rw [hle] at b1; rw [hrs] at b2
+      exact le_trans b1 b2
+
+/-- **C04, independent increments of queries.**  Two resolved queries `[ta, tb]` and `[tc, td]` with `tb ≤ tc` of one tree: any linear
+functionals of their pieces (in particular their `W` and their `U`) are uncorrelated. -/
+theorem queries_uncorrelated (hsq : ∀ x : K, 0 ≤ x → sqrt x * sqrt x = x) (hn : NoiseON C nz) {t : Model.BM.Tree K} (hwf : WF c t)
+    {top : R × R} (hl : LawAt C top t.s t.e) (hf : Fresh C nz top []) (ψ1 ψ2 : LinF K) {ta tb tc td : K} (hord : tb ≤ tc)
+    {ps1 ps2 : List Path} (f1 : find t ta tb = some ps1) (f2 : find t tc td = some ps2) {X1 X2 : R}
+    (h1 : C03Model.sumW (vecOps sqrt nz) (ψ1.app (R := R)) top t [] ps1 = some X1)
+    (h2 : C03Model.sumW (vecOps sqrt nz) (ψ2.app (R := R)) top t [] ps2 = some X2) : C.ip X1 X2 = 0 := by
+  have ch1 := C03Model.find_chain hwf f1
+  have ch2 := C03Model.find_chain hwf f2
+  apply sumF_orth C _ ψ1 top t [] X2 ps1 h1
+  intro p1 hp1 v1 n1 hv1 hg1
+  obtain ⟨n1', hg1', a1, a2, a3⟩ := chain_mem ch1 p1 hp1
+  have en1 : n1' = n1 := Option.some.inj (hg1'.symm.trans hg1)
+  subst en1
+  -- every piece of the second query is uncorrelated with this piece of the first
+  have key : ∀ p2 ∈ ps2, ∀ (v2 : R × R) (n2 : Model.BM.Tree K), valueAt (vecOps sqrt nz) top t p2 [] = some v2 → t.get? p2 = some n2 →
+      C.ip v1.1 v2.1 = 0 ∧ C.ip v1.1 v2.2 = 0 ∧ C.ip v1.2 v2.1 = 0 ∧ C.ip v1.2 v2.2 = 0 := by
+    intro p2 hp2 v2 n2 hv2 hg2
+    obtain ⟨n2', hg2', b1, b2, b3⟩ := chain_mem ch2 p2 hp2
+    have en2 : n2' = n2 := Option.some.inj (hg2'.symm.trans hg2)
+    subst en2
+    rcases path_trichotomy p1 p2 with ⟨r, rfl⟩ | ⟨r, rfl⟩ | ⟨a, r1, r2, b, rfl, rfl⟩
+    · -- p2 below p1: nested intervals, impossible
+      exfalso
+      rw [get?_append t p1 r hg1] at hg2
+      obtain ⟨c1, c2⟩ := get_bounds (wf_get hwf hg1) hg2
+      have : n2'.e ≤ n2'.s := le_trans c2 (le_trans a2 (le_trans hord b1))
+      exact absurd b3 (not_lt.mpr this)
+    · exfalso
+      rw [get?_append t p2 r hg2] at hg1
+      obtain ⟨c1, c2⟩ := get_bounds (wf_get hwf hg2) hg1
+      have : n1'.e ≤ n1'.s := le_trans a2 (le_trans hord (le_trans b1 c1))
+      exact absurd a3 (not_lt.mpr this)
+    · cases b
+      · exact disjoint_law sqrt C nz hsq hn hwf hl hf hv1 hv2 hg1 hg2
+      · -- the first query's piece to the right of the second's: contradicts the order
+        exfalso
+        have := diverge_order hwf (a := a) (r1 := r2) (r2 := r1) (by simpa using hg2) (by simpa using hg1)
+        have : n1'.e ≤ n1'.s := le_trans a2 (le_trans hord (le_trans b1 (le_trans (le_of_lt b3) this)))
+        exact absurd a3 (not_lt.mpr this)
+  constructor
+  · rw [C.symm]
+    apply sumF_orth C _ ψ2 top t [] v1.1 ps2 h2
+    intro p2 hp2 v2 n2 hv2 hg2
+    obtain ⟨k1, k2, _, _⟩ := key p2 hp2 v2 n2 hv2 hg2
+    exact ⟨(C.symm _ _).trans k1, (C.symm _ _).trans k2⟩
+  · rw [C.symm]
+    apply sumF_orth C _ ψ2 top t [] v1.2 ps2 h2
+    intro p2 hp2 v2 n2 hv2 hg2
+    obtain ⟨_, _, k3, k4⟩ := key p2 hp2 v2 n2 hv2 hg2
+    exact ⟨(C.symm _ _).trans k3, (C.symm _ _).trans k4⟩
 
 /-- the root of a freshly constructed object: `W = sqrt(T)·ξ₀`, `H = sqrt(T/12)·ξ₁` with `ξ₀, ξ₁` standard, uncorrelated with each
 other and with all node noise -/
